@@ -857,7 +857,8 @@ pub fn run_round(report: &Report, shard_seed: u64, round: u64, p: &Params) {
             next_serial: 1000,
             next_msg: 1,
             // [0] must stay a far-future value (used by phase_boundary)
-            exps: vec![base + 1000, base + 2000, base + 500_000, u64::MAX, base - 1000, base - 7, 1, base + 1000, base + 2000],
+            // base+1000/base+1001 are adjacent: a lookup that is not exact on the expiration would mix them up
+            exps: vec![base + 1000, base + 1001, base + 2000, base + 500_000, u64::MAX, base - 1000, base - 7, 1, base + 1000, base + 1001],
             sent: Vec::new(),
             log: Vec::new(),
             dead: false,
